@@ -270,7 +270,7 @@ func (d *dec) object(addr uint64, path string) *Object {
 			}
 			o.Links = compactLinks
 		}
-	case len(compactLinks) == 1 && !hasGroupInfo && len(h.msgs) == 1 && compactLinks[0].Kind != "hard":
+	case len(compactLinks) == 1 && !hasGroupInfo && onlyLinkAndRefCount(h.msgs) && compactLinks[0].Kind != "hard":
 		// the pinned library stores a soft/external link as an object header of its own that holds just the
 		// link message, and enters that header in the parent's symbol table like an object
 		d.deviate("link-pseudo-object", "object header 0x%x (%s): holds nothing but a %s link message; links are stored in the group that contains them (link message in the group's header, or a symbol table entry with cache type 2), not as separate objects", ha, path, compactLinks[0].Kind)
@@ -454,4 +454,20 @@ func (d *dec) denseAttrs(o *Object, ai *linkInfoMsg) {
 			d.fail("B-tree v2 at 0x%x (attribute creation order index of %s): %d records, name index has %d", d.abs(ai.corderBT), o.Path, len(cb.records), len(bt.records))
 		}
 	}
+}
+
+// onlyLinkAndRefCount: the header holds one link message and, once a hard link has been made to the pseudo object the
+// pinned library stores a soft/external link as, a reference count message (type 0x16); NIL messages do not count.
+func onlyLinkAndRefCount(msgs []rawMsg) bool {
+	links := 0
+	for _, m := range msgs {
+		switch m.typ {
+		case 0x0006:
+			links++
+		case 0x0016, 0x0000:
+		default:
+			return false
+		}
+	}
+	return links == 1
 }
